@@ -111,6 +111,9 @@ class C16(Spec):
         if k in ("utf8", "utf8_null"):
             if out["valid"] != py_valid(case["bytes"]):
                 return f"diplomat_is_str({bytes(case['bytes'])!r}) = {out['valid']}, but the string is {'valid' if not out['valid'] else 'not valid'} UTF-8"
+            if out.get("differing_offsets"):
+                return (f"diplomat_is_str({bytes(case['bytes'])!r}) answers {not out['valid']} when the same bytes start {out['differing_offsets']} byte(s) past a "
+                        f"16-aligned address (a sub-view of a larger buffer) and {out['valid']} in a fresh allocation: the answer depends on where the bytes sit")
             return None
         if k == "utf8_last":
             want = [b for b in range(256) if py_valid(case["prefix"] + [b])]
